@@ -69,7 +69,7 @@ GOOD = {
     "aliasPresenceCheckFirst": True, "aliasSameOwnerEarlyReturn": True, "aliasDetachesPrevOwner": True,
     "aliasDetachForm": "retain", "aliasPushForm": "push", "removeDropsPeer": True,
     "removeTakesIndexEntry": True, "removePurgeGuard": "forward_eq_id", "keyForPick": "first",
-    "getByThroughPeers": True, "lockRecoversPoison": True,
+    "getByThroughPeers": True, "lockRecoversPoison": True, "registryTimersOrThreads": 0,
 }
 W = r"[A-Za-z_]\w*"
 
@@ -253,6 +253,9 @@ def forms(src, imp, bcast, snap):
         raise ExtractError("lock form")
 
     fact("lockRecoversPoison", poison_form)
+    # (s) any timer / sleep / timeout / retry / thread hand-off inside the registry's methods is not there today:
+    # whatever form it takes, it is a pessimistic fact
+    f["registryTimersOrThreads"] = len(re.findall(r"\b(sleep|timeout|Instant|Duration|elapsed|recv_timeout|park_timeout|wait_timeout|thread\s*::\s*(spawn|scope)|spawn_blocking|rayon|retry|retries|attempts?)\b", imp))
     if unrec:
         f["unrecognised"] = unrec
     return f
@@ -343,6 +346,9 @@ def render(f):
         "",
         "/-- `lock()` recovers the guard from a poisoned mutex (a caller that panicked while holding it) -/",
         f"def lockRecoversPoison : Bool := {b(f['lockRecoversPoison'])}",
+        "",
+        "/-- occurrences of timer / sleep / timeout / retry / thread hand-off tokens inside `impl PeerRegistry` -/",
+        f"def registryTimersOrThreads : Nat := {f['registryTimersOrThreads']}",
         "",
         "end Repe.Gen.Peers", ""])
 
